@@ -229,10 +229,6 @@ class Emitter:
                     continue
                 fs = []
                 for f in d["fields"]:
-                    if f.get("alias_ann") is not None and f.get("alias_meta") is None:
-                        # the schema ignores a deciding Annotated Alias (known finding; K6A/K4 theorems): the
-                        # model has one key per field, so such classes are outside its grammar
-                        raise OutOfModel("annotated alias decides")
                     key = f["alias"] if f["alias"] is not None else f["name"]
                     fs.append(f"(mkF {coq_str(f['name'])} {coq_str(key)} {self.ty(f['type'])} {cbool(f['default'] is not None)} {cbool(f['init'])})")
                 classes.append(f"(mkC {coq_str(d['name'])} {coq_str(d['clsname'])} {cl(fs)})")
